@@ -47,6 +47,16 @@ pub fn record_type_of(r: &Record) -> RecordType {
     }
 }
 
+/// WLOG: every distance a harness observes is taken from one reference point r (the node itself, or
+/// the one target address), d(x) = H[x] xor H[r].  x -> x xor H[r] is a bijection that preserves
+/// distinctness, so fixing H[r] = 0 loses no behaviour and turns distances into plain variables.
+pub fn pin_reference(bytes: &[u8]) {
+    env::set_hash(bytes, symrt::SymU::konst(0));
+}
+pub fn pin_self_reference() {
+    pin_reference(&self_peer().to_bytes());
+}
+
 pub fn storage_dir() -> PathBuf {
     PathBuf::from("/node/record_store")
 }
@@ -123,6 +133,7 @@ pub fn registry() -> Vec<Harness> {
     let mut v = vec![];
     v.extend(crate::record_store::harness::harnesses());
     v.extend(crate::replication_fetcher::harness::harnesses());
+    v.extend(crate::h_driver::harnesses());
     v
 }
 
@@ -179,6 +190,7 @@ pub fn main_dispatch() {
         i += 1;
     }
     symrt::det::set_seed(cfg.seed);
+    // registered per thread by the harness bodies (see h_driver)
     let reg = registry();
     if let Some((file, idx)) = replay {
         // replay violation #idx of a report file for the named harness
